@@ -102,7 +102,7 @@ def check(ctx):
             want = [sel(fld(th, 'sums_'), idx), sel(fld(th, 'sums_'), add(idx, ONE)),
                     sel(fld(th, 'compensations_'), idiv(idx, TWO)), v]
             names = ['sum cell', 'sum-of-squares cell', 'compensation cell', 'value']
-            for got, w_, nm in zip(a['args'], want, names):
+            for got, w_, nm in zip(accumulate_args(p, a)[0], want, names):
                 # the cells as they are on the paths that reach the accumulation (helpers that report
                 # "outside" through a flag leave conditions in the term that the path excludes)
                 got = simplify_under(got, a['pc'])
